@@ -16,9 +16,10 @@ const (
 )
 
 var (
-	ErrPIDNotFound      = errors.New("astits: PID not found")
-	ErrPIDAlreadyExists = errors.New("astits: PID already exists")
-	ErrPCRPIDInvalid    = errors.New("astits: PCR PID invalid")
+	ErrPIDNotFound             = errors.New("astits: PID not found")
+	ErrPESExtension2DataTooBig = errors.New("astits: PES extension 2 data is more than 127 bytes long")
+	ErrPIDAlreadyExists        = errors.New("astits: PID already exists")
+	ErrPCRPIDInvalid           = errors.New("astits: PCR PID invalid")
 )
 
 type Muxer struct {
@@ -203,6 +204,12 @@ func (m *Muxer) WriteData(d *MuxerData) (int, error) {
 	ctx, ok := m.esContexts[uint32(d.PID)]
 	if !ok {
 		return 0, ErrPIDNotFound
+	}
+
+	// The length of the extension 2 data is coded on 7 bits: more can't be written, and a PES header has to fit in
+	// one packet
+	if oh := d.PES.Header.OptionalHeader; oh != nil && oh.HasExtension && oh.HasExtension2 && len(oh.Extension2Data) > 0x7f {
+		return 0, ErrPESExtension2DataTooBig
 	}
 
 	bytesWritten := 0
